@@ -229,7 +229,7 @@ def build_ref(r, layout=0, secret=False):
     fmt = 'old' if layout & 1 else 'new'
     trust = wire.build_packet(12, b'\x00\x03', fmt) if layout & 2 else b''
     out = bytearray()
-    nsec = [0]
+    nsec = [len(r['uids']) + 2 * len(r['uas'])]      # where the rotation of protection forms starts depends on the recipe
 
     def sec_body(kid):
         # layout bit 16: secret packets protected the way other implementations do (salted / simple / iterated S2K in turn, usage 254 / 255)
@@ -238,6 +238,11 @@ def build_ref(r, layout=0, secret=False):
         from .refpgp import s2k as rs2k
         n = nsec[0]
         nsec[0] += 1
+        if n % 5 >= 3:
+            # GnuPG stubs: secret part on a smartcard (extension 2, with the card's serial number) or absent (extension 1)
+            from .refpgp import keys as rkeys_
+            num = keypool.numbers(kid)
+            return rkeys_.build_gnu_dummy_body(num[0], num[1], num[2], num[4], num[5], mode=2 if n % 5 == 3 else 1, serial=bytes(range(0xD2, 0xD2 + 16)))
         kind = ['salted', 'simple', 'iterated'][n % 3]
         spec = rs2k.Spec(kind, [2, 8][n % 2], b'' if kind == 'simple' else bytes(range(0xA1, 0xA9)), 9 if kind == 'iterated' else None)
         return keypool.secret_body(kid, protect={'usage': [254, 255][(n // 3) % 2], 'sym': [7, 9, 3][n % 3], 'spec': spec, 'iv': bytes(range(16))[:8 if n % 3 == 2 else 16], 'passphrase': 'foreign pw'})
